@@ -341,7 +341,7 @@ func R22() Rule {
 			c.Check(okAdd, "R22", "filestore.Add/content-mtime-sidecar", add.Pos(), "writes the content file, forces a fresh mtime (= generation), then writes the sidecar", "filestore.Add does not write content, refresh the mtime and write the sidecar in that order: the object is incomplete or its generation does not change on overwrite")
 			del := storeMethod(P, "filestore", "Delete")
 			rmContent, rmMeta := false, false
-			for _, f := range core.Family(del) {
+			for _, f := range storeScope(P, del) {
 				for _, ci := range core.AllCalls(f) {
 					if ci.IsFunc("os", "Remove") {
 						if pathFrom(ci.Common.Args[0], "metaFilename") {
@@ -733,7 +733,7 @@ func R32() Rule {
 			var first token.Pos
 			for _, fn := range P.SrcFuncs(core.PkgGcsemu) {
 				if r := core.Root(fn); r.Signature.Recv() != nil {
-					if nm := core.NamedOf(r.Signature.Recv().Type()); nm != nil && (nm.Obj().Name() == "memstore" || nm.Obj().Name() == "filestore") {
+					if nm := core.NamedOf(r.Signature.Recv().Type()); nm != nil && (core.TName(nm) == "memstore" || core.TName(nm) == "filestore") {
 						continue
 					}
 				}
